@@ -100,10 +100,22 @@ def snap_df(df):
     return {"cols": list(map(str, df.columns)), "dtypes": [str(t) for t in df.dtypes], "vals": df.astype(str).values.tolist(), "index": list(map(str, df.index))}
 
 
-def _model(mi, style="str"):
+def _model(mi, style="str", rounded=False):
     ref = bn_from_desc(MODELS[mi])
     lab = Labeling(ref.n, ref.card, "str", None, style)
-    return ref, lab, make_bn(ref, lab)
+    model = make_bn(ref, lab)
+    if rounded:
+        # tables as users type them: rounded to four decimals, columns summing to 0.9999 / 1.0001 (inside check_model's tolerance);
+        # code that "repairs" such a column in place changes the caller's model
+        from pgmpy.factors.discrete import TabularCPD
+
+        for c in list(model.get_cpds()):
+            if len(c.variables) == 1:
+                k = int(c.cardinality[0])
+                tot = k * (k + 1) / 2.0
+                vals = [[int(10000 * (i + 1) / tot) / 10000.0] for i in range(k)]  # truncated, not rounded: the column sums to 0.9999 or less
+                model.add_cpds(TabularCPD(c.variable, k, vals, state_names={c.variable: list(c.state_names[c.variable])}))
+    return ref, lab, model
 
 
 # ------------------------------------------------------------------ (b) histories
@@ -338,8 +350,8 @@ def _edit_copy(c):
 
 
 def _purity(st, g):
-    for style in ("str", "def"):
-        ref, lab, model = _model(g["model"], style)
+    for style in ("str", "def", "rounded"):
+        ref, lab, model = _model(g["model"], "str" if style == "rounded" else style, rounded=(style == "rounded"))
         snap0 = snap_model(model)
         order0 = [str(c.variable) for c in model.cpds]
         st.states += 1
@@ -359,7 +371,8 @@ def _purity(st, g):
             if after != snap0:
                 diff = [k for k in snap0 if snap0[k] != after[k]]
                 st.violation("purity", "model-changed", case, {"changed": diff, "error": err}, None)
-                ref, lab, model = _model(g["model"], style)  # continue with a clean model
+                ref, lab, model = _model(g["model"], "str" if style == "rounded" else style, rounded=(style == "rounded"))  # continue with a clean model
+                snap0 = snap_model(model)
             elif [str(c.variable) for c in model.cpds] != order0:
                 st.bump("cpd-list-order-changed:" + name)
                 order0 = [str(c.variable) for c in model.cpds]
